@@ -287,6 +287,10 @@ def fit_faults(role, cont):
         F.append(dict(fault="item_lacks_sample_dim", item=1))
         F.append(dict(fault="item_wrong_type", item=1))
     F.append(dict(fault="weights_wrong_type", how="ndarray"))
+    # non-xarray weights that WOULD broadcast against the field (nothing downstream trips over them): a Python scalar, and a
+    # numpy array of the field's own shape
+    F.append(dict(fault="weights_wrong_type", how="scalar"))
+    F.append(dict(fault="weights_wrong_type", how="ndarray_field_shape"))
     return F
 
 
@@ -1006,7 +1010,9 @@ def apply_fault(call, case, kfit=None):
             call.fit[fld] = _map_item(call.fit[fld], f["item"], lambda x: np.asarray(x.values))
         elif kind == "weights_wrong_type":
             key = "weights" if fld == "X" else "weights_Y"
-            call.fit[key] = np.ones(3)
+            how = f.get("how", "ndarray")
+            first = _first_da(call.fit[fld])
+            call.fit[key] = np.ones(3) if how == "ndarray" else (1.5 if how == "scalar" else np.full(first.shape, 1.5))
         elif kind == "sample_count_mismatch":
             cut = lambda o: _map_all(o, lambda x: x.isel(time=slice(0, N_FIT - 1)))  # noqa: E731
             if f["how"] == "y_shorter":
